@@ -301,4 +301,117 @@ theorem ref_row (mult : Int) (ls : Nat) (diffMin qmin qmax : Int) (hd : diffMin 
   rw [← hsc.1]
   exact ref_out _ h h4 h12 qmin qmax hq hsc.2.1 hsc.2.2 _ (fun e he => expOfDiff_range mult ls diffMin _ e he)
 
+/-! ## Part B — `evalStep` on the remaining step shapes -/
+
+theorem runSteps_append (table xs : List Int) (p q : List NStep) : ∀ env env' : List Val,
+    runSteps table xs p env = .ok env' → runSteps table xs (p ++ q) env = runSteps table xs q env' := by
+  induction p with
+  | nil => intro env env' h; simp only [runSteps] at h; cases h; rfl
+  | cons s r ih =>
+    intro env env' h
+    simp only [List.cons_append, runSteps] at h ⊢
+    cases hs : evalStep table xs env s with
+    | error e => rw [hs] at h; cases h
+    | ok v => rw [hs] at h; simp only [] at h ⊢; exact ih _ _ h
+
+/-- pass 0: the depthwise max pool over the row -/
+theorem eval_maxpool (table : List Int) (x0 : Int) (rest : List Int) (env : List Val) (s : NStep)
+    (hk : s.kind = .maxpool) (ha : s.a = .input) :
+    evalStep table (x0 :: rest) env s = .ok (.scal (clamp (rest.foldl max x0 - s.aZp + s.ozp) s.actMin s.actMax)) := by
+  unfold evalStep
+  simp only [hk, ha, operandVal]
+  rfl
+
+/-- 8-bit SUB (operands with zero points, OFM_SCALE 1 / shift 0): the difference of the raw operands -/
+theorem ew_sub8 (r : Rounding) (a b : Int) :
+    NpuWide.ewWideValue 2 false true false r 0 1 1 (1 + 0 * 4294967296) a b = .ok (npuScale r (a * 1 - b * 1) 1 0) := by
+  have h1 : NpuSem.lo32 (1 + 0 * 4294967296) = 1 := by decide +kernel
+  have h2 : NpuSem.hi6 (1 + 0 * 4294967296) = 0 := by decide +kernel
+  unfold NpuWide.ewWideValue
+  simp only [Bool.not_true, Bool.false_eq_true, if_false, h1, h2, NpuSem.addOperands, if_true]
+  rfl
+
+/-- entry of the table of exponentials for the difference `d ∈ [−255, 0]` -/
+theorem expTable8_get (mult : Int) (ls : Nat) (diffMin d : Int) (h0 : -255 ≤ d) (h1 : d ≤ 0) :
+    (SoftmaxKernel.expTable8 mult ls diffMin)[(d + 255).toNat]? = some ((SoftmaxKernel.expOfDiff mult ls diffMin d).getD 0) := by
+  unfold SoftmaxKernel.expTable8
+  rw [List.getElem?_map, List.getElem?_range (by omega)]
+  simp only [Option.map_some]
+  have : (((d + 255).toNat : Nat) : Int) - 255 = d := by omega
+  rw [this]
+
+/-- the SUB + table lookup step (pass 1) of the lowered program -/
+def lutStep (P : Params) : NStep :=
+  { kind := .sub, a := .input, b := some (.pass 0), rounding := .tfl, mult := 1, shift := 0, aZp := P.zpIn, bZp := P.zpIn,
+    in32 := false, ofm32 := true, ozp := 127, lut := some (-128, 8), actMin := -128, actMax := 127 }
+
+/-- one element of pass 1: the exponential of the difference to the maximum, read from the reference table -/
+theorem lutStep_elem (P : Params) (mult : Int) (ls : Nat) (diffMin x mx : Int) (h0 : -255 ≤ x - mx) (h1 : x - mx ≤ 0) :
+    ewElem (lutStep P) (SoftmaxKernel.expTable8 mult ls diffMin) 2 x mx = .ok (expZ mult ls diffMin mx x) := by
+  unfold ewElem
+  show (match NpuWide.ewWideValue 2 false true false .tfl 0 1 1 (1 + 0 * 4294967296) (x - P.zpIn) (mx - P.zpIn) with
+    | .error e => throw e | .ok v => outStage (lutStep P) (SoftmaxKernel.expTable8 mult ls diffMin) v) = _
+  rw [ew_sub8, npu_shift0]
+  have hd : (x - P.zpIn) * 1 - (mx - P.zpIn) * 1 = x - mx := by omega
+  rw [hd]
+  have hc : clamp (x - mx + 127) (-128) 127 = x - mx + 127 := by
+    unfold clamp; split
+    · omega
+    · split <;> omega
+  have e8 : (2 : Int) ^ 8 = 256 := by decide
+  have hno : ¬ (x - mx + 255 < 0 ∨ x - mx + 255 ≥ 256) := by omega
+  have hi : (x - mx + 127 - -128) = (x - mx) + 255 := by omega
+  simp only [outStage, lutStep, NpuWide.lutOffset, hc, e8, hi, hno, if_false]
+  simp only [pure, Except.pure, expTable8_get mult ls diffMin (x - mx) h0 h1]
+  rfl
+
+theorem eval_lutStep (P : Params) (mult : Int) (ls : Nat) (diffMin mx : Int) (xs : List Int) (env : List Val)
+    (henv : env[0]? = some (.scal mx)) (hx : ∀ x ∈ xs, -255 ≤ x - mx ∧ x - mx ≤ 0) :
+    evalStep (SoftmaxKernel.expTable8 mult ls diffMin) xs env (lutStep P) = .ok (.vec (xs.map (expZ mult ls diffMin mx))) := by
+  rw [eval_bin _ xs env (lutStep P) 2 (.pass 0) (.vec xs) (.scal mx) rfl (by intro h; cases h) rfl rfl
+    (by simp only [operandVal, henv]; rfl)]
+  simp only [binop]
+  rw [mapE_ok _ (expZ mult ls diffMin mx)]
+  · rfl
+  · intro x hx'
+    exact lutStep_elem P mult ls diffMin x mx (hx x hx').1 (hx x hx').2
+
+/-- REDUCE_SUM of a vector with 32-bit operands, scale 1 / shift 0 (pass 3): the integer sum, saturated -/
+theorem eval_reduceSum (table xs : List Int) (env : List Val) (s : NStep) (l : List Int)
+    (hk : s.kind = .reduceSum) (hl : s.lut = none) (ho : s.ofm32 = true) (hr : s.rounding = .tfl) (hm : s.mult = 1)
+    (hs : s.shift = 0) (hz : s.aZp = 0) (ha : operandVal xs env s.a = .ok (.vec l)) :
+    evalStep table xs env s = .ok (.scal (clamp (l.foldl (fun acc x => acc + x) 0) NpuWide.INT32_LO NpuWide.INT32_HI)) := by
+  unfold evalStep
+  simp only [hk, ha, outStage, hl, NpuWide.outPlain, ho, if_true, NpuWide.reduceSumValue, hr, hm, hs, hz, rounding, Int.sub_zero]
+  push_cast
+  rw [npu_shift0]
+  rfl
+
+/-- CLZ of a per-position value (pass 4) -/
+theorem eval_clz_s (table xs : List Int) (env : List Val) (s : NStep) (v : Int)
+    (hk : s.kind = .clz) (hw : IsW32 s) (ha : operandVal xs env s.a = .ok (.scal v)) :
+    evalStep table xs env s = .ok (.scal (clamp (NpuWide.clz32 v) NpuWide.INT32_LO NpuWide.INT32_HI)) := by
+  unfold evalStep
+  simp only [hk, ha]
+  rw [ewElem_w32 table s 7 v 0 _ hw (ew_clz _ _ _ _)]
+  rfl
+
+/-- SHR of a vector by a per-position amount into an OFM of any width (pass 30) -/
+theorem eval_shr_vs_plain (table xs : List Int) (env : List Val) (s : NStep) (b : Operand) (l : List Int) (vb : Int)
+    (hk : s.kind = .shr) (hsb : s.b = some b) (hin : s.in32 = true) (hza : s.aZp = 0) (hzb : s.bZp = 0) (hl : s.lut = none)
+    (hr : s.rounding = .natural)
+    (ha : operandVal xs env s.a = .ok (.vec l)) (hb : operandVal xs env b = .ok (.scal vb)) (h0 : 0 ≤ vb) (h1 : vb ≤ 63) :
+    evalStep table xs env s =
+      .ok (.vec (l.map fun e => NpuWide.outPlain s.ofm32 s.ozp s.actMin s.actMax (npuScale .natural e 1 vb.toNat))) := by
+  rw [eval_bin table xs env s 8 b (.vec l) (.scal vb) (by rw [hk]; rfl) (by rw [hk]; decide) hsb ha hb]
+  simp only [binop]
+  rw [mapE_ok _ (fun e => NpuWide.outPlain s.ofm32 s.ozp s.actMin s.actMax (npuScale .natural e 1 vb.toNat))]
+  · rfl
+  · intro x _
+    rw [ewElem_plain table s 8 x vb _ hin hza hzb hl (ew_shr _ _ _ _ h0 h1), hr]
+    rfl
+
+theorem nSub0 (a b : Int) (h1 : -2147483648 ≤ a - b) (h2 : a - b ≤ 2147483647) : nSub 0 a b = a - b := by
+  unfold nSub; rw [npu_shift0, clamp_id _ h1 h2]
+
 end VelaVerif.Lemmas.SoftmaxRowL
